@@ -242,6 +242,16 @@ CHECKS = {
 }
 NA = {}
 
+def rules_of(pid):
+    """rule ids as recorded by the last evidence file (what the check actually decides today)"""
+    ev = V / 'evidence' / f'{pid}.json'
+    if not ev.exists():
+        return ''
+    r = json.loads(ev.read_text())['coverage'].get('rules', {})
+    ids = sorted(r, key=lambda k: (k[0], int(''.join(ch for ch in k if ch.isdigit()) or 0)))
+    return f"Rules decided on every run ({len(ids)}): {', '.join(ids)} (one line each in DESIGN.md 9.1). "
+
+
 checks = []
 for pid in ids:
     if pid in CHECKS:
@@ -253,7 +263,7 @@ for pid in ids:
             'evidence_file': f'/verif/evidence/{pid}.json',
             'replay_cmd_template': 'cat {path}',
             'engine': 'sa',
-            'level_claimed': {'category': 'other', 'text': c['text'], 'design_ref': c['ref']},
+            'level_claimed': {'category': 'other', 'text': rules_of(pid) + c['text'], 'design_ref': c['ref']},
             'level_note': c['note'],
             'technique': 'static analysis: ' + c['technique'] + '; plus rule Y0: ten defect-shape lints (CFG/def-use based, each with a positive example) over every function of the anchored modules',
         })
